@@ -1,7 +1,10 @@
 (* Props/C15.v -- property theorems only.  Model: Model/Heap.v (term objects shared by reference, compile in place,
    fit record on the model), tied to pygam.py / terms.py by harness/props/c15.py (random call histories).
    State of /repo modelled: after "fix: a spline term kept the knots of the first data set it was compiled on" and
-   "fix: gridsearch(keep_best=True) left the model sharing objects with a returned candidate". *)
+   "fix: gridsearch(keep_best=True) left the model sharing objects with a returned candidate".
+   The machine does not inspect the model family (distribution, link, expectile, exposure), so every theorem below holds for
+   each of the six model classes; the correspondence runs histories of LinearGAM, LogisticGAM, PoissonGAM (with and without
+   exposure), GammaGAM, InvGaussGAM and ExpectileGAM (fit_quantile is the op FitQuantile, which steps exactly like Fit). *)
 From Coq Require Import List ZArith Bool Arith.
 From PG Require Import Model.Heap Proofs.C15.
 Import ListNotations.
@@ -41,6 +44,11 @@ Proof.
   cbv zeta. split; [vm_compute; auto |]. split; [| reflexivity]. intros i Hi. vm_compute in Hi.
   destruct Hi as [<- | [<- | [<- | []]]]; vm_compute; auto.
 Qed.
+
+(* ExpectileGAM.fit_quantile is a fit as far as the heap is concerned: the theorems about Fit are theorems about it *)
+Theorem C15_fit_quantile_is_fit : forall h m d, step (FitQuantile m d) h = step (Fit m d) h.
+Proof. intros; reflexivity. Qed.
+Print Assumptions C15_fit_quantile_is_fit.
 
 (* fitting one model does not change what determines another model's predictions -- PROVIDED they share no term object *)
 Theorem C15_fit_isolated_partial : forall h m m' d, m <> m' ->
